@@ -122,6 +122,7 @@ fn cfgs_for(prop: &str, n: usize) -> Vec<RunCfg> {
                             drop_sender: false,
                             pre_interrupted: 0,
                             on_clone: false,
+                            unwind: vec![],
                         });
                     }
                 }
